@@ -20,7 +20,7 @@ ASSUMPTIONS = [
     "the parallel hashing path is reached by construction (two files larger than the threshold in one directory); its use is inferred from the inputs, not from an internal hook",
 ]
 MONITORS = "oid / bytes equality across permutations and configurations; independent canonical encoder; collision map"
-REQUIRED_COUNTERS = ["get_obj_after_add_histories", "state_warmed_under_other_algorithm", "permutations_checked", "sets_exhaustively_permuted", "disk_builds", "parallel_path_builds", "shuffled_walk_builds",
+REQUIRED_COUNTERS = ["inode_only_swaps", "get_obj_after_add_histories", "state_warmed_under_other_algorithm", "permutations_checked", "sets_exhaustively_permuted", "disk_builds", "parallel_path_builds", "shuffled_walk_builds",
                      "warm_state_builds", "prefix_objects_checked", "roundtrip_checks", "get_hashes_threshold_checks"]
 
 
@@ -158,6 +158,7 @@ def run_shard(ctx):
             big = rng.random() < 0.35
             files, _e = gen.tree(rng, depth=rng.randrange(0, 3), fanout=3, odd=0.3, dup=0.4, min_files=2)
             files[("crlf.txt",)] = b"line one\r\nline two\r\n" * rng.randrange(1, 40)
+            files[("twin-a",)], files[("twin-b",)] = b"AAAA twin", b"BBBB twin"
             if big:
                 base = rng.choice(sorted({k[:-1] for k in files}))
                 for i in range(rng.choice([2, 3])):
@@ -214,6 +215,33 @@ def run_shard(ctx):
             if obj.hash_info.value != ref:
                 res.violation("staging-config-dependent/state-warm-touched", "warm state after touching files gives another identifier", case=case,
                               detail={"listing": listing, "touched": touched})
+            # warm state after two equal-sized files changed places by rename with identical mtimes (inode-only change)
+            same = {}
+            for k, v in files.items():
+                same.setdefault(len(v), []).append(k)
+            pair = next((ks for ks in same.values() if len(ks) >= 2 and files[ks[0]] != files[ks[1]]), None)
+            if pair:
+                res.count("inode_only_swaps")
+                a, b = pair[0], pair[1]
+                pa, pb = os.path.join(p, *a), os.path.join(p, *b)
+                st = os.stat(pa)
+                os.utime(pb, ns=(st.st_atime_ns, st.st_mtime_ns))
+                build(odb, p, env.localfs(), "md5", dry_run=True)  # warm rows for the state as it is now
+                os.replace(pa, pa + ".swap")
+                os.replace(pb, pa)
+                os.replace(pa + ".swap", pb)
+                files[a], files[b] = files[b], files[a]
+                listing2 = {"/".join(k): H("md5", v) for k, v in files.items()}
+                res.evaluated()
+                res.count("disk_builds")
+                _st, _m, obj2 = build(odb, p, env.localfs(), "md5")
+                if obj2.hash_info.value != canonical_dir_oid(listing2):
+                    res.violation("staging-config-dependent/state-warm-after-inode-only-swap",
+                                  "after two equal-sized files were swapped by rename (mtimes preserved) the warm-state build does not give the id of the current contents",
+                                  case=case, detail={"swapped": ["/".join(a), "/".join(b)]})
+                listing = listing2
+                ref = canonical_dir_oid(listing2)
+                objs[0] = obj2
             # every sub-directory prefix vs a direct build of that sub-directory
             tree = objs[0]
             for pre in sorted({k[:i] for k in files for i in range(1, len(k))}):
